@@ -56,8 +56,11 @@ def check_factor_generators(prog: Program, rep: Report) -> None:
                     and self_attr(r.func.value) is not None and r.args and norm(r.args[0]) == var
             app = [c for c in ast.walk(loops[0]) if files_under(c)]
             if len(app) == 1:
-                conds = path_conditions(loops[0].body, app[0]) or []
-                ok = ps[0] in norm(app[0].args[0]) and set(conds) == {f"{var} < setting.number_of_nodes_per_root_node"}
+                exits: List[str] = []
+                conds = path_conditions(loops[0].body, app[0], exits) or []
+                # every index below n is filed: the only condition is `index < n`, and nothing ends the loop early
+                ok = ps[0] in norm(app[0].args[0]) and set(conds) == {f"{var} < setting.number_of_nodes_per_root_node"} and not exits \
+                    and not any(isinstance(x, (ast.Break, ast.Return)) for x in ast.walk(loops[0]))
     rep.ob("R10.5-map-keys", ok, loc, "map[index] gets the whole index set, for every index of the first object",
            "every index set must be filed under each of its indices that belongs to the active composite object, and only those")
     # local generator
@@ -86,10 +89,11 @@ def check_factor_generators(prog: Program, rep: Report) -> None:
             skip_ok = False
             if ok_outer:
                 o = norm(outer[0].target)
-                conds = path_conditions(outer[0].body, ys[0]) or []
+                exits2: List[str] = []
+                conds = path_conditions(outer[0].body, ys[0], exits2) or []
                 required = atoms(ast.parse(f"{o} != {a}[0]", mode="eval").body)[0]
                 allowed = {required, f"{a}[1] in self._map"}
-                skip_ok = required in conds and set(conds) <= allowed
+                skip_ok = required in conds and set(conds) <= allowed and not exits2
                 n_ = "setting.number_of_nodes_per_root_node"
                 inst = f"({a}[0], target_leaf_node) if target_leaf_node < {n_} else ({o}, target_leaf_node - {n_})" in y
                 rep.ob("R10.5-nonlocal-instantiation", inst, loc, ys[0].value,
